@@ -102,6 +102,8 @@ def net_oracle(cid, c, out, fails, bump, notes):
        multiset — and the snapshot file arrives byte for byte; nothing is reported unreachable"""
     phases = split_items(c[4])
     bump("T-phases=%d" % len(phases))
+    if c[1] == "v2slow":
+        bump("T-slow-receiver-burst")
     if "timeout-connect" in out or "timeout-redial" in out:
         notes.append("case %s inconclusive: the two in-process transports did not (re)connect in time: %s" % (cid, out[:80]))
         bump("T-inconclusive")
@@ -306,9 +308,9 @@ def run(ctx):
                             f.write(line if line.endswith("\n") else line + "\n")
             runs.append(("corpus", "-replay %s" % path))
         if quick:
-            runs.append(("fresh", "-seed %d -n 120 -nraw 300 -nall 24 -nbig 1 -exh 3 -nlife 40 -nnet 12 -nhand 16 -exhq 3" % ctx.seed))
+            runs.append(("fresh", "-seed %d -n 120 -nraw 300 -nall 24 -nbig 1 -exh 3 -nlife 40 -nnet 12 -nhand 16 -exhq 3 -nslow 2" % ctx.seed))
         else:
-            runs.append(("fresh", "-seed %d -n 1500 -nraw 6000 -nall 600 -nbig 6 -bigcuts full -exh 5 -nlife 600 -nnet 150 -nhand 300 -nburst 3 -exhq 4" % ctx.seed))
+            runs.append(("fresh", "-seed %d -n 1500 -nraw 6000 -nall 600 -nbig 6 -bigcuts full -exh 5 -nlife 600 -nnet 150 -nhand 300 -nburst 3 -exhq 4 -nslow 12" % ctx.seed))
 
     all_mism, all_fail, total, hist_all, samples, distinct = [], [], 0, {}, [], set()
     for sub, args in runs:
@@ -340,7 +342,7 @@ def run(ctx):
 
     def search():
         # larger generation judged by the direct oracle only
-        d2, err, _ = run_both(ctx, "search", "-seed %d -n 600 -nraw 3000 -nall 100 -nbig 2 -exh 4 -nlife 400 -nnet 60 -nhand 100 -exhq 4" % (ctx.seed + 1000003))
+        d2, err, _ = run_both(ctx, "search", "-seed %d -n 600 -nraw 3000 -nall 100 -nbig 2 -exh 4 -nlife 400 -nnet 60 -nhand 100 -exhq 4 -nslow 6" % (ctx.seed + 1000003))
         if d2 is None:
             return []
         cases = parse_cases(os.path.join(d2, "cases.tsv"))
